@@ -281,7 +281,13 @@ func (s *Subscription) GetRPCResources(indirect bool) *rpc.Resources {
 // ReleaseRPCResources will unlock all resources locked by GetRPCResource,
 // unqueue any events, and mark the subscription as sent.
 func (s *Subscription) ReleaseRPCResources() {
+	// A referenced resource not yet loaded, or loaded but awaiting its own
+	// references, was not populated by GetRPCResources and must not be marked
+	// as sent. It has been referenced by an event that awaits it, and is sent
+	// with that event.
 	if s.state == stateDisposed ||
+		s.state == stateLoading ||
+		s.state == stateLoaded ||
 		s.state == stateSent ||
 		s.err != nil {
 		return
@@ -328,6 +334,13 @@ func (s *Subscription) unqueueEvents(reason uint8) {
 // and populates the rpc.Resources object with all non-sent resources
 // referenced by the subscription, as well as the subscription's own data.
 func (s *Subscription) populateResources(r *rpc.Resources, indirect bool) {
+	// A resource still being loaded is not part of the resources to send. It
+	// has been referenced by an event that awaits it, and is sent with that
+	// event.
+	if s.state == stateLoading {
+		return
+	}
+
 	if indirect {
 		s.indirectsent++
 	}
@@ -374,6 +387,11 @@ func (s *Subscription) populateResources(r *rpc.Resources, indirect bool) {
 // populateResourcesLegacy is the same as populateResources, but uses legacy
 // encodings of resources.
 func (s *Subscription) populateResourcesLegacy(r *rpc.Resources, indirect bool) {
+	// See populateResources
+	if s.state == stateLoading {
+		return
+	}
+
 	if indirect {
 		s.indirectsent++
 	}
